@@ -6,6 +6,7 @@ import ThruVerif.Driver.AdmissionCmd
 import ThruVerif.Driver.PathCmd
 import ThruVerif.Driver.SidecarCmd
 import ThruVerif.Driver.ScanCmd
+import ThruVerif.Driver.AuthCmd
 import ThruVerif.Model.Budget
 /-!
 `tvdriver`: one case per input line, one result per output line. The same lines are given to the Go
@@ -42,6 +43,7 @@ def handle (line : String) : String :=
   | "scparse" :: ws => handleScParse ws
   | "budget" :: ws => handleBudget ws
   | "scan" :: ws => handleScan ws
+  | "auth" :: ws => handleAuth ws
   | "topnames" :: ws => handleTopNames ws
   | "scser" :: ws => handleScSer ws
   | "scload" :: ws => handleScLoad ws
